@@ -192,8 +192,10 @@ AddSub ==
 (* virtual fields *)
 AddVirt ==
   /\ nvirt < target[2] /\ Len(ints) > 0
-  /\ \E j \in 1..Len(ints), m \in {1, Len(ints)}, c \in {1, 100}, t \in 1..8 :
+  /\ \E j \in 1..Len(ints), m \in {1, Len(ints)}, c \in {1, 100}, t \in 1..11 :
        LET a == R(<<ints[j].n>>)  b == R(<<ints[m].n>>)  n == NextName
+           \* fields of the parameterised structure type Inner (conditional or not): nested paths go through them
+           inners == {q \in 1..Len(fields) : fields[q].kind = "sub" /\ fields[q].type = "Inner"}
            isScalar(nm) == \E q \in 1..Len(fields) : fields[q].name = nm /\ fields[q].kind = "scalar" /\ fields[q].st \in {"UInt", "Int"}
            \* products stay far inside TLC's integers
            guard == (t = 2 => ints[j].max <= (2 ^ 26) \div ints[m].max)
@@ -207,6 +209,11 @@ AddVirt ==
                [] t = 7 -> Push(Alias(n, <<ints[j].n>>))
                [] t = 8 -> IF isScalar(ints[j].n) THEN Push(Xform(n, "c-y", ints[j].n, c, Op2("-", I(c), a)))
                            ELSE Push(Xform(n, "y+c", ints[j].n, c, Op2("+", a, I(c))))
+               \* nested paths: $present of a conditional / an unconditional member, a stored member, a virtual member
+               [] t = 9 -> \E q \in inners, mem \in {"w", "v"} :
+                             Push(Virt(n, Op3("?:", Pres(<<fields[q].name, mem>>), a, I(c)), "int", <<>>))
+               [] t = 10 -> \E q \in inners : Push(Virt(n, Op2("+", R(<<fields[q].name, "v">>), I(c)), "int", <<>>))
+               [] t = 11 -> \E q \in inners : Push(Virt(n, Op3("max", R(<<fields[q].name, "vk">>), a, I(c)), "int", <<>>))
           /\ IF t \in {1, 7} THEN NoteInt(n, ints[j].max + (IF t = 1 THEN c ELSE 0), FALSE, TRUE, TRUE) ELSE UNCHANGED ints
   /\ nvirt' = nvirt + 1 /\ UNCHANGED <<helpers, conds, cursor, nphys, sealed, enums>>
 
